@@ -104,7 +104,7 @@ Section Registry.
     end.
 
   (* the function as it was before the repairs ("fix: report a failed provider stake / prepay transaction as an error"): the failed-status branch
-     returned the (nil) error variable of the preceding call *)
+     returned the (nil) error value left over from the preceding call *)
   Definition register_v0 (amount : option Z) (s : sendres) (w : receiptres) : list effect * outcome unit :=
     match s with
     | SErr => ([ESend (send_req amount)], Err 1)
